@@ -1056,19 +1056,21 @@ Section TopNoPanic.
     apply filters_for_ok. intros b f Hb Hf. eapply gen_rule_ok; eauto.
   Qed.
 
-  (* IgnoreLocal panics exactly on an id collision among the resources it keeps *)
+  (* IgnoreLocal never panics: an id collision among the resources it keeps is an error since /repo 66fde0c
+     (it used to panic in Factory.FromResourceSlice) *)
   Lemma np_remove_loop ids kept : forall cur, np (remove_loop ids kept cur).
   Proof.
     induction ids as [|id t IH]; intros cur; cbn [remove_loop]; [discriminate|].
     destruct (existsb _ kept); [apply IH|]. destruct (Nat.eqb _ _); [apply IH|discriminate].
   Qed.
 
-  Lemma np_ignore_local m : distinct_ids m -> np (ignore_local m).
+  Lemma np_ignore_local_any m : np (ignore_local m).
   Proof.
-    intros Hd. unfold ignore_local. destruct (negb _); [discriminate|].
-    rewrite (append_all_ok _ []) by (cbn [app]; do 2 apply distinct_ids_filter; exact Hd).
-    apply np_remove_loop.
+    unfold ignore_local. destruct (negb _); [discriminate|].
+    destruct (append_all pipe_cs [] _); try discriminate. apply np_remove_loop.
   Qed.
+  Lemma np_ignore_local m : distinct_ids m -> np (ignore_local m).
+  Proof. intros _. apply np_ignore_local_any. Qed.
 
   (* ids after the hash step: a resource that was not renamed keeps its id; the re-check at the end of the
      HashTransformer (fix 9a490e0) makes the id of every renamed resource unique - so the map has distinct ids *)
